@@ -178,6 +178,18 @@ rg v0 setStart n2 3
 rg v0 setEnd n1 2
 rg v0 delete
 rg v1 get''',
+ 'range-select-comment': '''newdoc=n0 ~ r 0
+bind=n1 n0 de
+cC=n2 n0 hello
+app n1 n2
+mkRange v0 n0
+rg v0 selectNodeContents n2''',
+ 'range-insertNode-readonly-newnode': '''newdoc=n0 ~ r 0
+bind=n1 n0 de
+cER=n2 n0 x
+mkRange v0 n0
+rg v0 setStart n1 0
+rg v0 insertNode n2''',
  'getElementById-recycled-attribute': '''newdoc=n0 ~ r 0
 bind=n1 n0 de
 cE=n2 n0 e
